@@ -26,7 +26,7 @@ ASSUMPTIONS = [
     "(measured <=2.4e-4); order 1 is exact (1e-9)",
     "sub-per-mille edits of fitted NNLO/N3LO constants in regular parts are not detectable by these exact constraints",
 ]
-BUDGET = {"quick": {"examples": 4000, "wall": 300}, "thorough": {"examples": 120000, "wall": 3300}}
+BUDGET = {"quick": {"examples": 4000, "wall": 300}, "thorough": {"examples": 120000, "wall": 2400}}
 MANDATORY = {
     t: ["clause:closed", "clause:moment", "clause:sumrule", "sumrule:adler", "sumrule:gls-bjorken", "sumrule:lbl", "kind:F2", "kind:FL", "kind:F3", "kind:g1",
         "channel:q", "channel:g", "order:2", "order:3"]
